@@ -108,9 +108,16 @@ def run(chk: core.Check, tier: str, seed: int) -> None:
                 recs.append(impl.rec_compile(jp, q, env=lived, extra=extra))
     n_typing = len(recs)
     # integer range
-    for lo, hi in [(-(2**53) + 1, 2**53 - 1), (-10, 10), (0, 3), (-2**31, 2**31), (-(10**20), 10**20)]:
-        env = probes.make_env(jp, [], [], lo=lo, hi=hi)
-        extra = {"lo": probes.int_lit(lo), "hi": probes.int_lit(hi)}
+    for lo, hi in [(None, None), (-(2**53) + 1, 2**53 - 1), (-10, 10), (0, 3), (-2**31, 2**31), (-(10**20), 10**20)]:
+        if lo is None:
+            # the library's OWN default range (nothing configured): RFC 9535 2.1's I-JSON range, on the module-level
+            # functions and on a plain environment alternately
+            lo, hi = -(2**53) + 1, 2**53 - 1
+            env = None if rng.random() < 0.5 else jp.JSONPathEnvironment()
+            extra = {}
+        else:
+            env = probes.make_env(jp, [], [], lo=lo, hi=hi)
+            extra = {"lo": probes.int_lit(lo), "hi": probes.int_lit(hi)}
         pts = sorted({lo - 1, lo, lo + 1, hi - 1, hi, hi + 1, 0, 1, -1, lo * 10, hi * 10 + 1, lo - 10**6, hi + 10**6})
         for v in pts:
             for q in (f"$[{v}]", f"$[{v}:]", f"$[:{v}]", f"$[::{v}]", f"$[0,{v}]", f"$..[{v}:{v}:{v}]", f"$[?@[{v}] == 1]",
@@ -119,12 +126,12 @@ def run(chk: core.Check, tier: str, seed: int) -> None:
     for r in recs:
         chk.nontrivial.add((tuple(r["q"]), str(r.get("reg", ""))[:80], str(r.get("lo"))))
     chk.sample({"query": core.dec_text(recs[10]["q"]), "f": recs[10]["reg"][0], "compile": recs[10]["out"], "cls": recs[10]["cls"]})
-    chk.sample({"query": core.dec_text(recs[-1]["q"]), "lo_hi": [recs[-1]["lo"], recs[-1]["hi"]], "compile": recs[-1]["out"]})
+    chk.sample({"query": core.dec_text(recs[-1]["q"]), "lo_hi": [recs[-1].get("lo"), recs[-1].get("hi")], "compile": recs[-1]["out"]})
     common.judge(chk, recs, "c05", what="Trace: compile() outcomes vs Typing.tla (well-typedness, integer range)",
                  only=lambda c: c.startswith(("C05", "C03", "C13")))
     chk.rule = (
         f"{n_typing} typing records ({len(sigs)} signatures x {per_sig} seeded (argument shapes x position) + built-ins x "
-        f"{len(SHAPES)} shapes x {len(POSITIONS)} positions sampled) + {len(recs) - n_typing} integer-range records (5 ranges x "
+        f"{len(SHAPES)} shapes x {len(POSITIONS)} positions sampled) + {len(recs) - n_typing} integer-range records (the default range + 5 configured ranges x "
         "13 boundary points x 10 syntactic positions); distinct = distinct (query, registry, range)"
     )
     chk.assumptions = ["RFC 9535 2.4.3 transcribed in Typing.tla, anchored by the 16 rows of the RFC's well-typedness table (selftest)"]
